@@ -72,7 +72,7 @@ def confirm(src, sid, prop):
     return meta['confirmed']
 
 
-def detect(sid, checks):
+def detect(sid, checks, record=True):
     dst = os.path.join(VERIF, 'seeded', sid)
     wt = scratch(sid + '_det')
     res = {}
@@ -87,10 +87,13 @@ def detect(sid, checks):
             viol = [ln for ln in r.stdout.split('\n') if ln.startswith('VIOLATION') or ln.strip().startswith('class=')]
             res[c] = {'exit': r.returncode, 'wall_s': round(time.time() - t0, 1),
                       'violations': [v[:260] for v in viol[:4]]}
-            print(sid, c, 'exit', r.returncode, f'{time.time()-t0:.0f}s', viol[:2])
+            if record:
+                print(sid, c, 'exit', r.returncode, f'{time.time()-t0:.0f}s', viol[:2])
     finally:
         drop(wt)
         shutil.rmtree(f'/tmp/seeded_ev_{sid}', ignore_errors=True)
+    if not record:
+        return res
     mp = os.path.join(dst, 'meta.json')
     meta = json.load(open(mp))
     meta.setdefault('detection', {}).update(res)
